@@ -1,7 +1,7 @@
 (* Obligations tying the generated formulas (Gen/Formulas.v, re-derived from /repo/src at every run) to the
    hand-written model.  They are proved for ALL arguments (field / setoid reasoning), so any change of a
    formula in the source that is not an algebraic identity breaks one of these lemmas. *)
-From Coq Require Import ZArith QArith Qround Qminmax Lia Lra Psatz.
+From Coq Require Import ZArith QArith Qround Qminmax Lia Lqa.
 From Elex Require Import Base.QRound Model.Split Gen.Formulas.
 Open Scope Q_scope.
 
@@ -45,3 +45,15 @@ Proof. reflexivity. Qed.
 
 Lemma gen_train_rows_ok (n : Z) (f : Q) : gen_train_rows (inject_Z n) f == inject_Z (train_rows n f).
 Proof. unfold gen_train_rows, train_rows. change 1 with (inject_Z 1) at 1. apply Qmax_inject. Qed.
+
+(* C06: BootstrapElectionModel._get_quantiles *)
+From Elex Require Import Model.Ranks.
+Lemma gen_boot_quantiles_ok (a : Q) (B : Z) :
+  fst (gen_boot_quantiles a (inject_Z B)) == lower_q a B /\ snd (gen_boot_quantiles a (inject_Z B)) == upper_q a B.
+Proof.
+  unfold gen_boot_quantiles, lower_q, upper_q, lower_rank, upper_rank. cbn [fst snd]. split.
+  - match goal with |- inject_Z (Qfloor ?x) / _ == inject_Z (Qfloor ?y) / _ =>
+      assert (E : x == y) by field; rewrite (Qfloor_comp _ _ E) end. reflexivity.
+  - match goal with |- inject_Z (Qceiling ?x) / _ == inject_Z (Qceiling ?y) / _ =>
+      assert (E : x == y) by field; rewrite (Qceiling_comp _ _ E) end. reflexivity.
+Qed.
